@@ -788,3 +788,62 @@ func init() {
 		WallBudget:  shapeBudget,
 	})
 }
+
+func init() {
+	registerProp(&PropSpec{
+		ID:     "C19",
+		Solver: "cvc5-int",
+		Units: func(tier string, seed int64, sh *Shared) []Unit {
+			var units []Unit
+			skels := []string{"d", "d.d", "d.d.d", "dddd.d.d", "ddddd.d", "d.dddd.dddd", "d.d.d.d", "d.d.d.d.d", "d.ddddd.d"}
+			pairs := [][2]string{}
+			for _, s := range skels {
+				pairs = append(pairs, [2]string{s, s})
+			}
+			pairs = append(pairs, [2]string{"d", "d.d.d"}, [2]string{"d.d", "d.d.d.d"}, [2]string{"dddd.d.d", "d.dddd.dddd"}, [2]string{"d.d.d.d.d", "d.d.d"}, [2]string{"ddddd.d", "dddd.d.d"})
+			if tier == "thorough" {
+				pairs = append(pairs, [2]string{"dddd.dddd.dddd.dddd", "dddd.dddd.dddd.dddd"}, [2]string{"dddd.dddd.dddd", "dddd.dddd.dddd"}, [2]string{"ddddd.ddddd.d", "dddd.dddd.dddd.dddd"},
+					[2]string{"d.dddd.ddddd.d", "dddd.d.d.ddddd"}, [2]string{"dd.dd.dd.dd.dd", "dd.dd.dd.dd"})
+			}
+			for _, p := range pairs {
+				for _, n := range []string{"", "1", "2", "3", "4"} {
+					if tier != "thorough" && (n == "1" || n == "2") && len(p[0]) > 5 {
+						continue
+					}
+					units = append(units, Unit{"VerifC19Version", []string{"version", p[0], p[1], n}})
+				}
+			}
+			for _, op := range []string{"t_version", "to_version"} {
+				units = append(units, Unit{"VerifC19Version", []string{op, "d.dddd.d", "dddd.d.d", ""}}, Unit{"VerifC19Version", []string{op, "d.d.d.d", "d.d.d.d", "4"}})
+			}
+			for _, op := range []string{"version", "t_version", "to_version"} {
+				for _, f := range []string{"nondigit:d.d.d:0", "nondigit:d.d.d:2", "nondigit:dd.dd.d:1", "nondigit:d.d.d.d:6", "nondigit:ddd:1",
+					"empty:1..2", "empty:.1.2", "empty:1.2.", "empty:", "empty:1.2..4", "length", "types"} {
+					units = append(units, Unit{"VerifC19Reject", []string{op, f}})
+				}
+			}
+			for _, r := range c19Dates {
+				units = append(units, Unit{"VerifC19Date", []string{r[0], r[1], r[2], r[3]}})
+			}
+			for _, r := range [][3]string{
+				{"date", "", "2006-01-02"}, {"to_date", "", "2006-01-02"}, {"td_date", "", "2006-01-02"},
+				{"datetime", "", "2006-01-02 15:04:05"}, {"to_datetime", "", "2006-01-02 15:04:05"}, {"td_time", "", "2006-01-02 15:04:05"},
+				{"date", "02/01/2006", "02/01/2006"}, {"datetime", "15:04 02.01.2006", "15:04 02.01.2006"}, {"to_date", "Jan 2 2006", "Jan 2 2006"},
+				{"t_date", "02/01/2006", "02/01/2006"}, {"t_time", "2006-01-02T15:04:05", "2006-01-02T15:04:05"},
+			} {
+				units = append(units, Unit{"VerifC19DateSym", []string{r[0], r[1], r[2]}})
+			}
+			return units
+		},
+		Reach: []string{"ordered", "less", "equal", "too-large", "nondigit", "empty", "bad-length", "good-length", "types", "date", "date-sym"},
+		Bounds: func(tier string) map[string]interface{} {
+			return map[string]interface{}{"versions": "pairs of texts with 1..5 components of 1, 4 or 5 arbitrary decimal digits each (solver variables; 9999/10000/99999 reachable), valid length default and 1..4",
+				"dates": "layout selection for EVERY text (time.Parse uninterpreted) for all 8 operators with default and supplied layouts; 132 concrete texts against Unix seconds computed independently (Python calendar.timegm) across epoch, leap-year, century, 2038 and year-1/9999 boundaries"}
+		},
+		Rule:        "version units: one per (operator, skeleton pair, valid length); the order query is decided by cvc5 with --solve-bv-as-int=sum (bit-blasting res*10000+v times out); date units: concrete table + symbolic layout-selection units",
+		Assumptions: []string{"chronological monotonicity of time.Parse∘Unix is a property of the Go standard library and is not decided here (time.Parse is an uninterpreted function in the symbolic date units; a concrete table is run natively-equivalent through the executor)",
+			"signed components (+1, -1 are accepted by ParseInt) are outside the stated domain and not asserted either way"},
+		TimeoutMs:  60000,
+		WallBudget: shapeBudget,
+	})
+}
